@@ -502,6 +502,43 @@ fn c15_jobs(tier: Tier) -> Vec<HybJob> {
             }
         }
     }
+    // Entries the flusher refuses (here: larger than a block) must not eat into the submit queue budget: with
+    // a budget of two such entries, two refused entries in the prologue and an idle queue afterwards, what is
+    // resident at close still has to be flushed.
+    for woi in [true, false] {
+        let mut cfg = HybCfg::small(woi, true);
+        cfg.mem_capacity = 3;
+        cfg.submit_threshold = 24 * 1024;
+        let big = cfg.max_entry_size() + 100;
+        let prologue = vec![
+            HOp::Ins { k: 3, sz: big, loc: Loc::Default },
+            HOp::Fill { n: 3 },
+            HOp::Wait,
+            HOp::Ins { k: 3, sz: big, loc: Loc::Default },
+            HOp::Fill { n: 3 },
+            HOp::Wait,
+        ];
+        for body in sequences(&alpha[..4].to_vec(), 2) {
+            if !body.iter().any(|o| matches!(o, HOp::Ins { loc: Loc::Default, .. })) {
+                continue;
+            }
+            let mut prog = body.clone();
+            prog.push(HOp::Close);
+            jobs.push(HybJob {
+                cfg: cfg.clone(),
+                prog,
+                policy: Eager,
+                opts: RunOpts {
+                    prologue: prologue.clone(),
+                    final_reads: false,
+                    final_restart: true,
+                    universe: vec![1, 2, 3],
+                    ..Default::default()
+                },
+                bound: 0,
+            });
+        }
+    }
     jobs
 }
 
@@ -601,6 +638,17 @@ fn c11_jobs(tier: Tier) -> Vec<HybJob> {
             HOp::Ins { k: 1, sz: 100, loc: Loc::Default },
             HOp::Get { k: 1 },
         ],
+        // The explicit insert is a disk-only one (its memory record is a phantom that is never indexed): it
+        // supersedes the pending fetch all the same.
+        vec![HOp::GofHeld { k: 1, sz: 100 }, HOp::Ins { k: 1, sz: 100, loc: Loc::OnDisk }, HOp::Get { k: 1 }],
+        vec![
+            HOp::GofHeld { k: 1, sz: 100 },
+            HOp::Get { k: 1 },
+            HOp::Ins { k: 1, sz: 100, loc: Loc::OnDisk },
+            HOp::Get { k: 1 },
+        ],
+        vec![HOp::GofHeld { k: 1, sz: 100 }, HOp::SwIns { k: 1, sz: 100 }, HOp::Get { k: 1 }],
+        vec![HOp::GofHeld { k: 1, sz: 100 }, HOp::Ins { k: 1, sz: 100, loc: Loc::InMem }, HOp::Get { k: 1 }],
     ];
     let bound = if tier == Tier::Quick { 2 } else { 4 };
     for cfg in cfgs {
@@ -705,6 +753,24 @@ fn c06_judge(_job: &HybJob, out: &RunOut) -> Vec<Complaint> {
             }
         }
     }
+    // (2b) a get_or_fetch caller fails only with the error of an origin fetch that failed while it was waiting
+    // (or with a cancellation error if a fetch task / caller was dropped): a failed *disk lookup* is followed by
+    // the origin fetch, it is not an answer.
+    for l in h.lookups.iter().filter(|l| l.kind == "gof") {
+        let LookupRes::Err(e) = &l.res else { continue };
+        let end = l.answered.or(l.resp).unwrap_or(u64::MAX);
+        let failed_origin = h
+            .origins
+            .iter()
+            .any(|o| o.key == l.key && o.ver.is_none() && o.first_poll.is_some() && o.resolved.map(|r| r >= l.invoke && r <= end).unwrap_or(false));
+        let cancelled = (e.contains("TaskCancelled") || e.contains("ChannelClosed")) && out.world.cancels_done > 0;
+        if !failed_origin && !cancelled {
+            v.push((
+                "F.error-without-failed-fetch",
+                format!("get_or_fetch(k{}) (t{}..{:?}) failed with {e} although no origin fetch of the key failed while it was waiting (origins: {:?})", l.key, l.invoke, l.resp, h.origins.iter().filter(|o| o.key == l.key).map(|o| (o.first_poll, o.resolved, o.ver, o.dropped)).collect::<Vec<_>>()),
+            ));
+        }
+    }
     // (3) a failed fetch caches nothing.
     for l in h.lookups.iter().filter(|l| l.kind == "final") {
         let any_success = h.writes.iter().any(|w| w.key == l.key);
@@ -767,14 +833,16 @@ fn c06_jobs(tier: Tier) -> Vec<HybJob> {
                 if with_disk_copy && cfg.noop_storage {
                     continue;
                 }
-                let mut prog = if with_disk_copy { seed.clone() } else { vec![] };
+                // The disk state is established by a FIFO prologue (everything quiesces), so that under every
+                // base schedule the callers below really find the key on disk only - not in the write queue.
+                let mut prologue = if with_disk_copy { seed.clone() } else { vec![] };
                 if disk_state == 2 {
                     if core.len() > 2 {
                         continue;
                     }
-                    prog.push(HOp::ThrottleLoads);
+                    prologue.push(HOp::ThrottleLoads);
                 }
-                prog.extend(core.iter().copied());
+                let prog: Vec<HOp> = core.to_vec();
                 for (policy, faults, cancels) in [
                     (BasePolicy::ClientFirst, 0usize, 0usize),
                     (BasePolicy::Eager, 0, 0),
@@ -794,6 +862,7 @@ fn c06_jobs(tier: Tier) -> Vec<HybJob> {
                             universe: vec![1],
                             io_faults: faults,
                             cancels,
+                            prologue: prologue.clone(),
                             ..Default::default()
                         },
                         bound,
